@@ -300,19 +300,22 @@ def io_cases(seed, n, kinds=None):
     """(hist, op, auto, kind) : a history that builds some contents, then one operation of a chosen kind"""
     out = []
     kinds = kinds or ["insert", "insert_multiple", "remove_some", "remove_none", "remove_all_match", "update_some", "update_nochange",
-                      "drop", "remove_all", "handle_update", "read", "insert_multiple_bad", "update_raises"]
+                      "drop", "remove_all", "handle_update", "read", "insert_multiple_bad", "update_raises", "update_shrink"]
     for i in range(n):
         g = dbgen.Gen((seed << 16) + i, {"p_selective": 1.0, "allow_raise": False})
         r = g.r
         auto = r.random() < 0.7
         g.ids = 1
         n0 = r.choice([1, 2, 3, 5, 8])
+        if kinds[i % len(kinds)] == "update_shrink":
+            auto, n0 = True, max(n0, 3)          # the index must answer the query: storage-level shortcuts hang off that path
         pts = g.points_batch(n0, in_order=r.random() < 0.7)
         hist = [("insert", pts, None, "multiple")]
         for _ in range(r.choice([0, 1, 2])):
             hist.append(r.choice([g.read_op(), ("get", g.query(), None), ("remove", g.query(), g.mfilter()), ("insert", [g.point()], None)]))
         kind = kinds[i % len(kinds)]
-        j = r.randrange(1, g.ids) if g.ids > 1 else 1
+        ns = sorted(p["fields"]["n"] for p in pts if "n" in p["fields"])       # the selective ids actually stored by the first batch
+        j = r.choice(ns) if ns else 1
         one = ("S", "tags", [("k", "id")], ("cmp", "==", ("s", str(j))))
         if i % 4 == 1:
             # the previous operations may leave rows that are logically stored but (if the library is wrong) not yet in the file
@@ -338,6 +341,10 @@ def io_cases(seed, n, kinds=None):
             op = ("remove", ("S", "time", [], ("cmp", ">", ("t", dbgen.T0 - 10 ** 9))), None)
         elif kind == "update_some":
             op = ("update", one, {"tags": ("static", {"a": "upd\r\nated,\"q\""}), "fields": ("static", {"n": 99})}, None)
+        elif kind == "update_shrink":
+            # the LAST stored points become shorter rows (keys unset, short values): a rewrite that reuses the old file would leave a tail behind
+            op = ("update", ("S", "fields", [("k", "n")], ("cmp", ">=", ("n", ns[len(ns) // 2] if len(ns) >= 2 else 1))),
+                  {"unset_tags": ["a", "b", "k", "id"], "unset_fields": ["a", "b"], "fields": ("static", {"n": 1})}, None)
         elif kind == "update_nochange":
             op = ("update", one, {"tags": ("static", {"id": str(j)})}, None)
         elif kind == "update_raises":
